@@ -165,12 +165,19 @@ def run_shard(ctx):
     flagsets = [({}, False)]
     if ctx.tier == "thorough":
         flagsets = [({}, False), ({}, True), ({"normalize_names": True}, False), ({"normalize_names": True}, True)]
-    for j in range(ctx.budget(160, 8000)):
-        s = GS.gen_mixed(rng)
+    from vf.gen import sources
+    for j in range(ctx.budget(200, 5000)):
+        if j % 2 == 0:
+            s = GS.gen_mixed(rng)
+            src, text, kinds = "mixed", s["text"], s["kinds"]
+        else:
+            src, text = sources.any_script(rng)      # every other generator of the framework as a source of scripts
+            kinds = None
+        ctx.obs["source:" + src] += 1
         for ctor, gbt in flagsets:
-            check_case(ctx, {"gen": "generated", "ddl": s["text"], "ctor": ctor, "group_by_type": gbt, "kinds": s["kinds"]})
+            check_case(ctx, {"gen": "generated", "source": src, "ddl": text, "ctor": ctor, "group_by_type": gbt, "kinds": kinds})
         if j == 0:
-            ctx.sample({"ddl": s["text"][:800], "modes": MODES})
+            ctx.sample({"ddl": text[:800], "modes": MODES})
     corp = [c for c in load_corpus() if c["ok"]]
     n = ctx.budget(96, len(corp) + ctx.nshards)
     for j in range(n):
